@@ -15,7 +15,8 @@ EXPLANATION = (
     "the Index<&Kind> slot map inlined) -> (fallible, kinds). R3: the iter_for_kind filter as a truth table. R4: data_type_impl's "
     "chain: one entry per (kind, fallible), context fields consistent. R5/R6: quote_trait's 12 cells -> complete impl item (skeleton "
     "inlined, holes replaced by typed placeholders, parsed by syn): trait path, receiver side, `type Error`, Result return, method "
-    "name/signature. R7: TypePath.path is never interpolated without TypePath.generics.")
+    "name/signature. R7: TypePath.path is never interpolated without TypePath.generics. "
+    " R8: TypePath::from(syn::Path) is partially evaluated over the shape of the last segment (whole path kept, <..> of the LAST segment cleared once and returned as generics). R9 imports C15.R1: validation partitions instructions per (kind, fallible), so an instruction is never rejected because of an instruction of another conversion.")
 NOT_DECIDED = ["rustc coherence / trait resolution on the emitted impls (trusted)", "what the user-written counterpart/error type tokens denote"]
 
 TRAITS = {
